@@ -3,8 +3,9 @@
 -/
 import Cvss.Model.V3
 import Cvss.Spec.V3
+import Cvss.Lemmas.V3
 namespace Cvss.Props.C01
-open Cvss Cvss.Model
+open Cvss Cvss.Model Cvss.Lemmas.Num3
 
 /-- what the specification's tables say `METRICS_VALUES[metric][token]` must be -/
 def expectedWeight (metric token : Str) : Option Rat :=
@@ -24,5 +25,502 @@ theorem weights_pinned : weightsPinned = true := by decide +kernel
 theorem pr_changed_pinned :
     V3.prChanged.all (fun (t, wgt) => wgt == (if t = c!"X" then none else some (Spec.V3.prWeight true t))) = true := by
   decide +kernel
+
+/-- a metric map as a successful `parse` produces it (see C04): every stored value is a legal value
+    of its metric and every mandatory metric is present -/
+def ValidMap (m : MMap) : Prop :=
+  (∀ k v, lookup k m = some v → ∃ vs, lookup k V3.tables.legal = some vs ∧ v ∈ vs) ∧
+  (∀ k ∈ V3.tables.mandatory, (lookup k m).isSome)
+
+theorem modified_nodup : V3.modifiedMetrics.Nodup := by decide
+theorem modified_drop : ∀ a ∈ V3.modifiedMetrics, a.drop 1 ∉ V3.modifiedMetrics := by decide
+theorem modified_base_mandatory : ∀ a ∈ V3.modifiedMetrics, a.drop 1 ∈ V3.tables.mandatory := by decide
+
+/-- `add_missing_optional`: every Modified metric that is absent or X receives its base metric's value,
+    nothing else changes (look-up view of the resulting dict) -/
+theorem addMissingOptional_lookup (m : MMap) (hv : ValidMap m) :
+    ∃ full, V3.addMissingOptional m V3.modifiedMetrics = some full ∧
+      ∀ k, lookup k full =
+        if k ∈ V3.modifiedMetrics ∧ assignment V3.X m k = V3.X then lookup (k.drop 1) m else lookup k m := by
+  have hbase : ∀ a ∈ V3.modifiedMetrics, (lookup (a.drop 1) m).isSome := fun a ha =>
+    hv.2 _ (modified_base_mandatory a ha)
+  exact Lemmas.V3.addMissingOptional_spec _ modified_nodup modified_drop m hbase
+
+/-! ### what `get_value` returns -/
+
+/-- `t` is a legal value token of metric `name` -/
+def legalTok (name t : Str) : Prop := t ∈ (lookup name V3.tables.legal).getD []
+
+instance (name t : Str) : Decidable (legalTok name t) := by unfold legalTok; infer_instance
+
+theorem legalTok_of_lookup {m : MMap} (hv : ValidMap m) {k v : Str} (h : lookup k m = some v) :
+    legalTok k v := by
+  obtain ⟨vs, h1, h2⟩ := hv.1 k v h
+  simp [legalTok, h1, h2]
+
+theorem legalTok_row {name t : Str} (h : legalTok name t) :
+    ∃ row, lookup name Gen.V3.values = some row ∧ ∃ w, lookup t row = some w := by
+  unfold legalTok V3.tables at h
+  simp only [Lemmas.V3.lookup_map_keys] at h
+  cases hr : lookup name Gen.V3.values with
+  | none => simp [hr] at h
+  | some row =>
+    rw [hr] at h
+    exact ⟨row, rfl, Lemmas.V3.mem_keys_lookup h⟩
+
+/-- propositional form of `weights_pinned` -/
+theorem values_pinned {k t : Str} {row : List (Str × Option Rat)} {w : Option Rat}
+    (h1 : lookup k Gen.V3.values = some row) (h2 : lookup t row = some w) : w = expectedWeight k t := by
+  have h := Lemmas.V3.all_lookup weights_pinned h1
+  have h' := Lemmas.V3.all_lookup h h2
+  exact eq_of_beq h'
+
+/-- `get_value` outside the Privileges-Required special case: the pinned weight of the stored token -/
+theorem getValue_nonpr (c : V3.Ctx) (name v : Str)
+    (hpr : ¬ ((name = c!"PR" ∧ c.scope = c!"C") ∨ (name = c!"MPR" ∧ c.modScope = c!"C")))
+    (hsv : (lookup name c.metrics).getD V3.X = v) (hl : legalTok name v) :
+    V3.getValue c name = expectedWeight name v := by
+  obtain ⟨row, h1, w, h2⟩ := legalTok_row hl
+  unfold V3.getValue
+  simp only [hsv, if_neg hpr, h1, h2]
+  exact values_pinned h1 h2
+
+/-- `get_value` in the Privileges-Required special case -/
+theorem getValue_pr (c : V3.Ctx) (name : Str) (w : Option Rat)
+    (hpr : (name = c!"PR" ∧ c.scope = c!"C") ∨ (name = c!"MPR" ∧ c.modScope = c!"C"))
+    (h : lookup ((lookup name c.metrics).getD V3.X) V3.prChanged = some w) :
+    V3.getValue c name = w := by
+  unfold V3.getValue
+  simp only [if_pos hpr, h]
+
+theorem expectedWeight_plain {name : Str} (v : Str) (h1 : name ≠ c!"S") (h2 : name ≠ c!"MS")
+    (h3 : name.head? ≠ some 'M') (h4 : name ≠ c!"PR") (h5 : name ≠ c!"MPR") :
+    expectedWeight name v = some (Spec.V3.w name v) := by
+  simp [expectedWeight, h1, h2, h3, h4, h5]
+
+theorem expectedWeight_mod {name : Str} (v : Str) (h1 : name ≠ c!"S") (h2 : name ≠ c!"MS")
+    (h3 : name.head? = some 'M') (h4 : name ≠ c!"PR") (h5 : name ≠ c!"MPR") (hx : v ≠ V3.X) :
+    expectedWeight name v = some (Spec.V3.w (name.drop 1) v) := by
+  have hx' : v ≠ c!"X" := hx
+  simp [expectedWeight, h1, h2, h3, h4, h5, hx']
+
+theorem expectedWeight_PR (v : Str) :
+    expectedWeight c!"PR" v = some (Spec.V3.prWeight false v) := by
+  simp [expectedWeight]
+
+theorem expectedWeight_MPR (v : Str) (hx : v ≠ V3.X) :
+    expectedWeight c!"MPR" v = some (Spec.V3.prWeight false v) := by
+  have hx' : v ≠ c!"X" := hx
+  simp [expectedWeight, hx']
+
+theorem X_eq : Spec.V3.X = V3.X := rfl
+
+/-- the hypothesis shape delivered by `addMissingOptional_lookup` -/
+def Filled (m full : MMap) : Prop :=
+  ∀ k, lookup k full =
+    if k ∈ V3.modifiedMetrics ∧ assignment V3.X m k = V3.X then lookup (k.drop 1) m else lookup k m
+
+theorem sv_base {m full : MMap} (hf : Filled m full) {name : Str} (hn : name ∉ V3.modifiedMetrics) :
+    (lookup name full).getD V3.X = assignment V3.X m name := by
+  rw [hf name, if_neg (fun h => hn h.1)]; rfl
+
+theorem sv_mod {m full : MMap} (hf : Filled m full) {name : Str} (hn : name ∈ V3.modifiedMetrics) :
+    (lookup name full).getD V3.X = Spec.V3.eff (assignment V3.X m) name (name.drop 1) := by
+  rw [hf name]; unfold Spec.V3.eff; rw [X_eq]
+  by_cases h : assignment V3.X m name = V3.X
+  · rw [if_pos ⟨hn, h⟩, if_pos h]; rfl
+  · rw [if_neg (fun hh => h hh.2), if_neg h]; rfl
+
+theorem legal_mandatory {m : MMap} (hv : ValidMap m) {name : Str} (hn : name ∈ V3.tables.mandatory) :
+    legalTok name (assignment V3.X m name) := by
+  obtain ⟨v, h⟩ := Option.isSome_iff_exists.mp (hv.2 name hn)
+  have := legalTok_of_lookup hv h
+  simpa [assignment, h] using this
+
+theorem legal_optional {m : MMap} (hv : ValidMap m) {name : Str} (hx : legalTok name V3.X) :
+    legalTok name (assignment V3.X m name) := by
+  cases h : lookup name m with
+  | none => simpa [assignment, h] using hx
+  | some v => simpa [assignment, h] using legalTok_of_lookup hv h
+
+/-- finite fact: every legal token of a base metric is a legal token ≠ X of its Modified metric -/
+theorem mod_legal_fact : ∀ name ∈ V3.modifiedMetrics,
+    ∀ t ∈ (lookup (name.drop 1) V3.tables.legal).getD [], legalTok name t ∧ t ≠ V3.X := by
+  decide +kernel
+
+theorem legal_eff {m : MMap} (hv : ValidMap m) {name : Str} (hn : name ∈ V3.modifiedMetrics) :
+    legalTok name (Spec.V3.eff (assignment V3.X m) name (name.drop 1)) ∧
+      Spec.V3.eff (assignment V3.X m) name (name.drop 1) ≠ V3.X := by
+  unfold Spec.V3.eff; rw [X_eq]
+  by_cases h : assignment V3.X m name = V3.X
+  · rw [if_pos h]
+    exact mod_legal_fact name hn _ (legal_mandatory hv (modified_base_mandatory name hn))
+  · rw [if_neg h]
+    cases hl : lookup name m with
+    | none => exact absurd (by simp [assignment, hl]) h
+    | some v =>
+      have e : assignment V3.X m name = v := by simp [assignment, hl]
+      rw [e] at h ⊢
+      exact ⟨legalTok_of_lookup hv hl, h⟩
+
+/-- the context `build` computes the scores in -/
+def ctxOf (m full : MMap) : V3.Ctx :=
+  { metrics := full, scope := assignment V3.X m c!"S",
+    modScope := Spec.V3.eff (assignment V3.X m) c!"MS" c!"S" }
+
+def plainNames : List Str :=
+  [c!"C", c!"I", c!"A", c!"AV", c!"AC", c!"UI", c!"E", c!"RL", c!"RC", c!"CR", c!"IR", c!"AR"]
+
+theorem plain_fact : ∀ name ∈ plainNames,
+    name ∉ V3.modifiedMetrics ∧ name ≠ c!"S" ∧ name ≠ c!"MS" ∧ name.head? ≠ some 'M' ∧
+      name ≠ c!"PR" ∧ name ≠ c!"MPR" ∧ (name ∈ V3.tables.mandatory ∨ legalTok name V3.X) := by
+  decide +kernel
+
+theorem gv_plain {m full : MMap} (hv : ValidMap m) (hf : Filled m full) {name : Str}
+    (hn : name ∈ plainNames) :
+    V3.getValue (ctxOf m full) name = some (Spec.V3.w name (assignment V3.X m name)) := by
+  obtain ⟨h0, h1, h2, h3, h4, h5, h6⟩ := plain_fact name hn
+  have hl : legalTok name (assignment V3.X m name) := by
+    rcases h6 with h6 | h6
+    · exact legal_mandatory hv h6
+    · exact legal_optional hv h6
+  rw [getValue_nonpr (ctxOf m full) name _ (fun h => h.elim (fun h => h4 h.1) (fun h => h5 h.1))
+    (sv_base hf h0) hl]
+  exact expectedWeight_plain _ h1 h2 h3 h4 h5
+
+def modNames : List Str := [c!"MAV", c!"MAC", c!"MUI", c!"MC", c!"MI", c!"MA"]
+
+theorem mod_fact : ∀ name ∈ modNames,
+    name ∈ V3.modifiedMetrics ∧ name ≠ c!"S" ∧ name ≠ c!"MS" ∧ name.head? = some 'M' ∧
+      name ≠ c!"PR" ∧ name ≠ c!"MPR" := by
+  decide +kernel
+
+theorem gv_mod {m full : MMap} (hv : ValidMap m) (hf : Filled m full) {name : Str}
+    (hn : name ∈ modNames) :
+    V3.getValue (ctxOf m full) name =
+      some (Spec.V3.w (name.drop 1) (Spec.V3.eff (assignment V3.X m) name (name.drop 1))) := by
+  obtain ⟨h0, h1, h2, h3, h4, h5⟩ := mod_fact name hn
+  obtain ⟨hl, hx⟩ := legal_eff hv h0
+  rw [getValue_nonpr (ctxOf m full) name _ (fun h => h.elim (fun h => h4 h.1) (fun h => h5 h.1))
+    (sv_mod hf h0) hl]
+  exact expectedWeight_mod _ h1 h2 h3 h4 h5 hx
+
+theorem scope_cases {m : MMap} (hv : ValidMap m) :
+    assignment V3.X m c!"S" = c!"C" ∨ assignment V3.X m c!"S" = c!"U" := by
+  have h := legal_mandatory hv (name := c!"S") (by decide)
+  have e : (lookup c!"S" V3.tables.legal).getD [] = [c!"C", c!"U"] := by decide +kernel
+  unfold legalTok at h
+  rw [e] at h
+  simpa using h
+
+theorem modScope_cases {m : MMap} (hv : ValidMap m) :
+    Spec.V3.eff (assignment V3.X m) c!"MS" c!"S" = c!"C" ∨
+      Spec.V3.eff (assignment V3.X m) c!"MS" c!"S" = c!"U" := by
+  obtain ⟨h, hx⟩ := legal_eff hv (name := c!"MS") (by decide)
+  have e : (lookup c!"MS" V3.tables.legal).getD [] = [c!"X", c!"C", c!"U"] := by decide +kernel
+  unfold legalTok at h
+  rw [e] at h
+  simp only [List.mem_cons, List.not_mem_nil, or_false] at h
+  rcases h with h | h | h
+  · exact absurd h hx
+  · exact Or.inl h
+  · exact Or.inr h
+
+theorem prChanged_lookup {v : Str} (h : v ∈ [c!"N", c!"L", c!"H"]) :
+    lookup v V3.prChanged = some (some (Spec.V3.prWeight true v)) := by
+  simp only [List.mem_cons, List.not_mem_nil, or_false] at h
+  rcases h with rfl | rfl | rfl <;> decide +kernel
+
+theorem gv_PR {m full : MMap} (hv : ValidMap m) (hf : Filled m full) :
+    V3.getValue (ctxOf m full) c!"PR" =
+      some (Spec.V3.prWeight (decide (assignment V3.X m c!"S" = c!"C")) (assignment V3.X m c!"PR")) := by
+  have hsv : (lookup c!"PR" full).getD V3.X = assignment V3.X m c!"PR" :=
+    sv_base hf (by decide)
+  have hl : legalTok c!"PR" (assignment V3.X m c!"PR") := legal_mandatory hv (by decide)
+  rcases scope_cases hv with hs | hs
+  · have e : (lookup c!"PR" V3.tables.legal).getD [] = [c!"N", c!"L", c!"H"] := by decide +kernel
+    unfold legalTok at hl
+    rw [e] at hl
+    have hc : ((c!"PR" = c!"PR" ∧ (ctxOf m full).scope = c!"C") ∨
+        (c!"PR" = c!"MPR" ∧ (ctxOf m full).modScope = c!"C")) := Or.inl ⟨rfl, hs⟩
+    have hsv' : (lookup c!"PR" (ctxOf m full).metrics).getD V3.X = assignment V3.X m c!"PR" := hsv
+    rw [getValue_pr (ctxOf m full) c!"PR" _ hc (by rw [hsv']; exact prChanged_lookup hl), hs]
+    rfl
+  · have hc : ¬ ((c!"PR" = c!"PR" ∧ (ctxOf m full).scope = c!"C") ∨
+        (c!"PR" = c!"MPR" ∧ (ctxOf m full).modScope = c!"C")) := by
+      rintro (⟨_, h⟩ | ⟨h, _⟩)
+      · have h' : assignment V3.X m c!"S" = c!"C" := h
+        rw [hs] at h'; exact absurd h' (by decide)
+      · exact absurd h (by decide)
+    rw [getValue_nonpr (ctxOf m full) c!"PR" _ hc hsv hl, expectedWeight_PR, hs]
+    rfl
+
+theorem gv_MPR {m full : MMap} (hv : ValidMap m) (hf : Filled m full) :
+    V3.getValue (ctxOf m full) c!"MPR" =
+      some (Spec.V3.prWeight (decide (Spec.V3.eff (assignment V3.X m) c!"MS" c!"S" = c!"C"))
+        (Spec.V3.eff (assignment V3.X m) c!"MPR" c!"PR")) := by
+  have hsv : (lookup c!"MPR" full).getD V3.X = Spec.V3.eff (assignment V3.X m) c!"MPR" c!"PR" :=
+    sv_mod hf (by decide)
+  obtain ⟨hl, hx⟩ := legal_eff hv (name := c!"MPR") (by decide)
+  change legalTok c!"MPR" (Spec.V3.eff (assignment V3.X m) c!"MPR" c!"PR") at hl
+  change Spec.V3.eff (assignment V3.X m) c!"MPR" c!"PR" ≠ V3.X at hx
+  rcases modScope_cases hv with hs | hs
+  · have e : (lookup c!"MPR" V3.tables.legal).getD [] = [c!"X", c!"N", c!"L", c!"H"] := by
+      decide +kernel
+    unfold legalTok at hl
+    rw [e] at hl
+    have hl' : Spec.V3.eff (assignment V3.X m) c!"MPR" c!"PR" ∈ [c!"N", c!"L", c!"H"] := by
+      rcases List.mem_cons.mp hl with h | h
+      · exact absurd h hx
+      · exact h
+    have hc : ((c!"MPR" = c!"PR" ∧ (ctxOf m full).scope = c!"C") ∨
+        (c!"MPR" = c!"MPR" ∧ (ctxOf m full).modScope = c!"C")) := Or.inr ⟨rfl, hs⟩
+    have hsv' : (lookup c!"MPR" (ctxOf m full).metrics).getD V3.X =
+        Spec.V3.eff (assignment V3.X m) c!"MPR" c!"PR" := hsv
+    rw [getValue_pr (ctxOf m full) c!"MPR" _ hc (by rw [hsv']; exact prChanged_lookup hl'), hs]
+    rfl
+  · have hc : ¬ ((c!"MPR" = c!"PR" ∧ (ctxOf m full).scope = c!"C") ∨
+        (c!"MPR" = c!"MPR" ∧ (ctxOf m full).modScope = c!"C")) := by
+      rintro (⟨h, _⟩ | ⟨_, h⟩)
+      · exact absurd h (by decide)
+      · have h' : Spec.V3.eff (assignment V3.X m) c!"MS" c!"S" = c!"C" := h
+        rw [hs] at h'; exact absurd h' (by decide)
+    rw [getValue_nonpr (ctxOf m full) c!"MPR" _ hc hsv hl, expectedWeight_MPR _ hx, hs]
+    rfl
+
+/-! ### the score functions, given what `get_value` returns -/
+theorem baseScore_eq_abs (c : V3.Ctx) (a : Str → Str)
+    (hs : c.scope = a c!"S") (hsc : a c!"S" = c!"C" ∨ a c!"S" = c!"U")
+    (hC : V3.getValue c c!"C" = some (Spec.V3.w c!"C" (a c!"C")))
+    (hI : V3.getValue c c!"I" = some (Spec.V3.w c!"I" (a c!"I")))
+    (hA : V3.getValue c c!"A" = some (Spec.V3.w c!"A" (a c!"A")))
+    (hAV : V3.getValue c c!"AV" = some (Spec.V3.w c!"AV" (a c!"AV")))
+    (hAC : V3.getValue c c!"AC" = some (Spec.V3.w c!"AC" (a c!"AC")))
+    (hUI : V3.getValue c c!"UI" = some (Spec.V3.w c!"UI" (a c!"UI")))
+    (hPR : V3.getValue c c!"PR" = some (Spec.V3.prWeight (decide (a c!"S" = c!"C")) (a c!"PR"))) :
+    V3.baseScore c = some (Spec.V3.baseScore a) := by
+  unfold V3.baseScore V3.iscBase V3.esc V3.isc Spec.V3.baseScore Spec.V3.impact
+  simp only [hC, hI, hA, hAV, hAC, hUI, hPR, hs, Option.bind_eq_bind, Option.bind_some, Option.pure_def]
+  have hCU : ¬ (c!"C" = c!"U") := by decide
+  have hUC : ¬ (c!"U" = c!"C") := by decide
+  rcases hsc with h | h
+  · simp only [h, hCU, if_true, if_false, decide_true, Option.bind_some, V3.r, Spec.V3.r,
+      pyMin_eq_min, roundUp1_eq_roundup, ← apply_ite some]
+  · simp only [h, hUC, if_true, if_false, decide_false, Bool.false_eq_true, Option.bind_some, V3.r, Spec.V3.r,
+      pyMin_eq_min, roundUp1_eq_roundup, ← apply_ite some]
+
+theorem temporalScore_eq_abs (c : V3.Ctx) (a : Str → Str) (b : Rat)
+    (hE : V3.getValue c c!"E" = some (Spec.V3.w c!"E" (a c!"E")))
+    (hRL : V3.getValue c c!"RL" = some (Spec.V3.w c!"RL" (a c!"RL")))
+    (hRC : V3.getValue c c!"RC" = some (Spec.V3.w c!"RC" (a c!"RC"))) :
+    V3.temporalScore c b = some (Spec.V3.roundup (b * Spec.V3.temporalFactor a)) := by
+  unfold V3.temporalScore Spec.V3.temporalFactor
+  simp only [hE, hRL, hRC, Option.bind_eq_bind, Option.bind_some, Option.pure_def,
+    roundUp1_eq_roundup, mul_assoc]
+
+theorem environmentalScore_eq_abs (c : V3.Ctx) (a : Str → Str) (minor : Nat)
+    (hs : c.modScope = Spec.V3.eff a c!"MS" c!"S")
+    (hsc : Spec.V3.eff a c!"MS" c!"S" = c!"C" ∨ Spec.V3.eff a c!"MS" c!"S" = c!"U")
+    (hMC : V3.getValue c c!"MC" = some (Spec.V3.w c!"C" (Spec.V3.eff a c!"MC" c!"C")))
+    (hMI : V3.getValue c c!"MI" = some (Spec.V3.w c!"I" (Spec.V3.eff a c!"MI" c!"I")))
+    (hMA : V3.getValue c c!"MA" = some (Spec.V3.w c!"A" (Spec.V3.eff a c!"MA" c!"A")))
+    (hCR : V3.getValue c c!"CR" = some (Spec.V3.w c!"CR" (a c!"CR")))
+    (hIR : V3.getValue c c!"IR" = some (Spec.V3.w c!"IR" (a c!"IR")))
+    (hAR : V3.getValue c c!"AR" = some (Spec.V3.w c!"AR" (a c!"AR")))
+    (hMAV : V3.getValue c c!"MAV" = some (Spec.V3.w c!"AV" (Spec.V3.eff a c!"MAV" c!"AV")))
+    (hMAC : V3.getValue c c!"MAC" = some (Spec.V3.w c!"AC" (Spec.V3.eff a c!"MAC" c!"AC")))
+    (hMUI : V3.getValue c c!"MUI" = some (Spec.V3.w c!"UI" (Spec.V3.eff a c!"MUI" c!"UI")))
+    (hMPR : V3.getValue c c!"MPR" = some (Spec.V3.prWeight
+      (decide (Spec.V3.eff a c!"MS" c!"S" = c!"C")) (Spec.V3.eff a c!"MPR" c!"PR")))
+    (hE : V3.getValue c c!"E" = some (Spec.V3.w c!"E" (a c!"E")))
+    (hRL : V3.getValue c c!"RL" = some (Spec.V3.w c!"RL" (a c!"RL")))
+    (hRC : V3.getValue c c!"RC" = some (Spec.V3.w c!"RC" (a c!"RC"))) :
+    V3.environmentalScore c minor = some (Spec.V3.environmentalScore minor a) := by
+  unfold V3.environmentalScore V3.modifiedIscBase V3.modifiedEsc V3.modifiedIsc
+    Spec.V3.environmentalScore Spec.V3.modifiedImpact Spec.V3.temporalFactor
+  simp only [hMC, hMI, hMA, hCR, hIR, hAR, hMAV, hMAC, hMUI, hMPR, hE, hRL, hRC, hs,
+    Option.bind_eq_bind, Option.bind_some, Option.pure_def]
+  have hCU : ¬ (c!"C" = c!"U") := by decide
+  have hUC : ¬ (c!"U" = c!"C") := by decide
+  rcases hsc with h | h
+  · simp only [h, hCU, if_true, if_false, decide_true, Bool.not_true, Bool.false_eq_true,
+      V3.r, Spec.V3.r,
+      pyMin_eq_min, roundUp1_eq_roundup, ← apply_ite some, mul_assoc]
+  · simp only [h, hUC, if_true, if_false, decide_false, Bool.not_false,
+      V3.r, Spec.V3.r,
+      pyMin_eq_min, roundUp1_eq_roundup, ← apply_ite some, mul_assoc]
+
+/-- MAIN: for every valid metric map and minor version, construction succeeds (no exception outside the
+    hierarchy) and the three scores are the specification's equations applied to the assignment read
+    off the ORIGINAL map, with the modified-impact formula of that minor version; the object records
+    the input, and its filled-in metric dict is as `addMissingOptional_lookup` says -/
+theorem v3_build_eq_spec (s : Str) (minor : Nat) (m : MMap) (hv : ValidMap m) :
+    ∃ o, V3.build s minor m = some o ∧ o.vector = s ∧ o.minor = minor ∧ o.orig = m ∧
+      o.base = Spec.V3.baseScore (assignment V3.X m) ∧
+      o.temporal = Spec.V3.temporalScore (assignment V3.X m) ∧
+      o.env = Spec.V3.environmentalScore minor (assignment V3.X m) ∧
+      ∀ k, lookup k o.metrics =
+        if k ∈ V3.modifiedMetrics ∧ assignment V3.X m k = V3.X then lookup (k.drop 1) m else lookup k m := by
+  obtain ⟨full, hfull, hf⟩ := addMissingOptional_lookup m hv
+  have hf' : Filled m full := hf
+  obtain ⟨sc, hsc⟩ := Option.isSome_iff_exists.mp (hv.2 c!"S" (by decide))
+  have haS : assignment V3.X m c!"S" = sc := by simp [assignment, hsc]
+  have hb := baseScore_eq_abs (ctxOf m full) (assignment V3.X m) rfl (scope_cases hv)
+    (gv_plain hv hf' (by decide)) (gv_plain hv hf' (by decide)) (gv_plain hv hf' (by decide))
+    (gv_plain hv hf' (by decide)) (gv_plain hv hf' (by decide)) (gv_plain hv hf' (by decide))
+    (gv_PR hv hf')
+  have ht := temporalScore_eq_abs (ctxOf m full) (assignment V3.X m)
+    (Spec.V3.baseScore (assignment V3.X m))
+    (gv_plain hv hf' (by decide)) (gv_plain hv hf' (by decide)) (gv_plain hv hf' (by decide))
+  have he := environmentalScore_eq_abs (ctxOf m full) (assignment V3.X m) minor rfl
+    (modScope_cases hv)
+    (gv_mod hv hf' (name := c!"MC") (by decide)) (gv_mod hv hf' (name := c!"MI") (by decide))
+    (gv_mod hv hf' (name := c!"MA") (by decide))
+    (gv_plain hv hf' (by decide)) (gv_plain hv hf' (by decide)) (gv_plain hv hf' (by decide))
+    (gv_mod hv hf' (name := c!"MAV") (by decide)) (gv_mod hv hf' (name := c!"MAC") (by decide))
+    (gv_mod hv hf' (name := c!"MUI") (by decide)) (gv_MPR hv hf')
+    (gv_plain hv hf' (by decide)) (gv_plain hv hf' (by decide)) (gv_plain hv hf' (by decide))
+  have hctx : ∀ ms, ms = Spec.V3.eff (assignment V3.X m) c!"MS" c!"S" →
+      ({ metrics := full, scope := sc, modScope := ms } : V3.Ctx) = ctxOf m full := by
+    intro ms hms
+    rw [hms, ← haS]; rfl
+  unfold V3.build
+  cases hm : lookup c!"MS" m with
+  | none =>
+    have hX : assignment V3.X m c!"MS" = Spec.V3.X := by
+      simp only [assignment, hm, Option.getD_none]; rfl
+    have e := hctx sc (by unfold Spec.V3.eff; rw [if_pos hX, haS])
+    simp only [hsc, hfull, e, hb, ht, he, Option.bind_eq_bind, Option.bind_some, Option.pure_def]
+    exact ⟨_, rfl, rfl, rfl, rfl, rfl, rfl, rfl, hf⟩
+  | some v =>
+    have hv' : assignment V3.X m c!"MS" = v := by
+      simp only [assignment, hm, Option.getD_some]
+    have e := hctx (if v = V3.X then sc else v) (by
+      unfold Spec.V3.eff; rw [hv', haS, X_eq])
+    simp only [hsc, hfull, e, hb, ht, he, Option.bind_eq_bind, Option.bind_some, Option.pure_def]
+    exact ⟨_, rfl, rfl, rfl, rfl, rfl, rfl, rfl, hf⟩
+
+/-! ### ranges of the specification's functions -/
+
+theorem weights_nonneg_check :
+    Spec.V3.weights.all (fun (_, row) => row.all (fun (_, x) => decide (0 ≤ x))) = true := by
+  decide +kernel
+
+theorem w_cases (P : Rat → Prop) (h0 : P 0) (mt v : Str)
+    (h : ∀ row x, lookup mt Spec.V3.weights = some row → lookup v row = some x → P x) :
+    P (Spec.V3.w mt v) := by
+  unfold Spec.V3.w
+  cases h1 : lookup mt Spec.V3.weights with
+  | none => exact h0
+  | some row =>
+    show P ((lookup v row).getD 0)
+    cases h2 : lookup v row with
+    | none => exact h0
+    | some x => exact h row x h1 h2
+
+theorem w_nonneg (mt v : Str) : 0 ≤ Spec.V3.w mt v := by
+  apply w_cases (fun x => 0 ≤ x) (le_refl _)
+  intro row x h1 h2
+  have h := Lemmas.V3.all_lookup (Lemmas.V3.all_lookup weights_nonneg_check h1) h2
+  simpa using h
+
+theorem temporal_le_one_check : ∀ mt ∈ [c!"E", c!"RL", c!"RC"],
+    ∀ p ∈ (lookup mt Spec.V3.weights).getD [], p.2 ≤ 1 := by
+  decide +kernel
+
+theorem w_le_one {mt : Str} (hm : mt ∈ [c!"E", c!"RL", c!"RC"]) (v : Str) : Spec.V3.w mt v ≤ 1 := by
+  have hc := temporal_le_one_check mt hm
+  apply w_cases (fun x => x ≤ 1) zero_le_one
+  intro row x h1 h2
+  rw [h1] at hc
+  exact hc (v, x) (Lemmas.V3.lookup_mem h2)
+
+theorem prWeight_nonneg (ch : Bool) (v : Str) : 0 ≤ Spec.V3.prWeight ch v := by
+  unfold Spec.V3.prWeight
+  split_ifs <;> norm_num [Spec.V3.r, mkRat_eq]
+
+theorem temporalFactor_range (a : Str → Str) :
+    0 ≤ Spec.V3.temporalFactor a ∧ Spec.V3.temporalFactor a ≤ 1 := by
+  unfold Spec.V3.temporalFactor
+  exact mul3_range (w_nonneg _ _) (w_le_one (by decide) _) (w_nonneg _ _) (w_le_one (by decide) _)
+    (w_nonneg _ _) (w_le_one (by decide) _)
+
+theorem expl_nonneg {x1 x2 x3 x4 : Rat} (h1 : 0 ≤ x1) (h2 : 0 ≤ x2) (h3 : 0 ≤ x3) (h4 : 0 ≤ x4) :
+    0 ≤ Spec.V3.r 822 100 * x1 * x2 * x3 * x4 := by
+  have : (0 : Rat) ≤ Spec.V3.r 822 100 := by norm_num [Spec.V3.r, mkRat_eq]
+  positivity
+
+/-- a well-formed score: an integer number of tenths between 0.0 and 10.0 -/
+def IsScore (x : Rat) : Prop := ∃ k : Nat, k ≤ 100 ∧ x = (k : Rat) / 10
+
+theorem isScore_zero : IsScore 0 := ⟨0, by norm_num⟩
+
+theorem inner_range {imp expl : Rat} (hi : ¬ imp ≤ 0) (he : 0 ≤ expl) :
+    0 ≤ imp + expl ∧ 0 ≤ Spec.V3.r 108 100 * (imp + expl) := by
+  have h1 : 0 ≤ imp + expl := by linarith [not_le.mp hi]
+  have h2 : (0 : Rat) ≤ Spec.V3.r 108 100 := by norm_num [Spec.V3.r, mkRat_eq]
+  exact ⟨h1, mul_nonneg h2 h1⟩
+
+theorem base_shape_isScore (imp expl : Rat) (ch : Prop) [Decidable ch] (he : 0 ≤ expl) :
+    IsScore (if imp ≤ 0 then 0
+      else if ch then Spec.V3.roundup (min (Spec.V3.r 108 100 * (imp + expl)) 10)
+      else Spec.V3.roundup (min (imp + expl) 10)) := by
+  split_ifs with hi hc
+  · exact isScore_zero
+  · have h := min_ten_range (inner_range hi he).2
+    exact roundup_tenths h.1 h.2
+  · have h := min_ten_range (inner_range hi he).1
+    exact roundup_tenths h.1 h.2
+
+theorem env_shape_isScore (imp expl tf : Rat) (ch : Prop) [Decidable ch] (he : 0 ≤ expl)
+    (h0 : 0 ≤ tf) (h1 : tf ≤ 1) :
+    IsScore (if imp ≤ 0 then 0
+      else if ch then
+        Spec.V3.roundup (Spec.V3.roundup (min (Spec.V3.r 108 100 * (imp + expl)) 10) * tf)
+      else Spec.V3.roundup (Spec.V3.roundup (min (imp + expl) 10) * tf)) := by
+  split_ifs with hi hc
+  · exact isScore_zero
+  · have h := min_ten_range (inner_range hi he).2
+    have h2 := tenths_range (roundup_tenths h.1 h.2)
+    have h3 := mul_factor_range h2.1 h2.2 h0 h1
+    exact roundup_tenths h3.1 h3.2
+  · have h := min_ten_range (inner_range hi he).1
+    have h2 := tenths_range (roundup_tenths h.1 h.2)
+    have h3 := mul_factor_range h2.1 h2.2 h0 h1
+    exact roundup_tenths h3.1 h3.2
+
+theorem base_isScore (a : Str → Str) : IsScore (Spec.V3.baseScore a) := by
+  unfold Spec.V3.baseScore
+  exact base_shape_isScore _ _ _
+    (expl_nonneg (w_nonneg _ _) (w_nonneg _ _) (prWeight_nonneg _ _) (w_nonneg _ _))
+
+theorem temporal_isScore (a : Str → Str) : IsScore (Spec.V3.temporalScore a) := by
+  unfold Spec.V3.temporalScore
+  have h2 := tenths_range (base_isScore a)
+  have ht := temporalFactor_range a
+  have h3 := mul_factor_range h2.1 h2.2 ht.1 ht.2
+  exact roundup_tenths h3.1 h3.2
+
+theorem env_isScore (minor : Nat) (a : Str → Str) :
+    IsScore (Spec.V3.environmentalScore minor a) := by
+  unfold Spec.V3.environmentalScore
+  have ht := temporalFactor_range a
+  exact env_shape_isScore _ _ _ _
+    (expl_nonneg (w_nonneg _ _) (w_nonneg _ _) (prWeight_nonneg _ _) (w_nonneg _ _)) ht.1 ht.2
+
+/-- C09 (v3 part): for EVERY assignment the specification's three scores are integer tenths in [0.0, 10.0]
+    (unknown tokens weigh 0 in `Spec.V3.w`, so no validity hypothesis is needed) -/
+theorem v3_spec_range (minor : Nat) (a : Str → Str) :
+    IsScore (Spec.V3.baseScore a) ∧ IsScore (Spec.V3.temporalScore a) ∧
+      IsScore (Spec.V3.environmentalScore minor a) :=
+  ⟨base_isScore a, temporal_isScore a, env_isScore minor a⟩
+
+/-- non-vacuity: the README example
+    CVSS:3.0/S:C/C:H/I:H/A:N/AV:P/AC:H/PR:H/UI:R/E:H/RL:O/RC:R/CR:H/IR:X/AR:X/MAC:H/MPR:X/MUI:X/MC:L/MA:X → 6.5, 6.0, 5.3 -/
+example :
+    Spec.V3.scores 0 (assignment V3.X [(c!"S", c!"C"), (c!"C", c!"H"), (c!"I", c!"H"), (c!"A", c!"N"), (c!"AV", c!"P"),
+      (c!"AC", c!"H"), (c!"PR", c!"H"), (c!"UI", c!"R"), (c!"E", c!"H"), (c!"RL", c!"O"), (c!"RC", c!"R"), (c!"CR", c!"H"),
+      (c!"IR", c!"X"), (c!"AR", c!"X"), (c!"MAC", c!"H"), (c!"MPR", c!"X"), (c!"MUI", c!"X"), (c!"MC", c!"L"), (c!"MA", c!"X")]) =
+      [some (mkRat 65 10), some 6, some (mkRat 53 10)] := by decide +kernel
 
 end Cvss.Props.C01
